@@ -522,7 +522,7 @@ def equalfn_cases(rng, reps):
                     t1, t2 = build(a, b, c, v)
                     uses_matrix = bool((tree_kinds(t1, set()) | tree_kinds(t2, set())) & MATRIX)
                     out.append({"family": "equalfn", "template": name, "fam": fam, "n": n, "t1": t1, "t2": t2,
-                                "labels": "int" if uses_matrix else rng.choice(Labels.STYLES),
+                                "labels": "int" if uses_matrix else rng.choice(Labels.STYLES_NUM),
                                 "num": rng.choice(["int", "frac"])})
     return out
 
@@ -584,7 +584,7 @@ def expr_case(rng, depth=None):
     n = rng.randint(2, 6)
     tree = gen_model(rng, fam, n, depth if depth is not None else rng.choice([1, 2, 2, 3, 3, 4]), kinds)
     uses_matrix = bool(tree_kinds(tree, set()) & MATRIX)
-    labels = "int" if uses_matrix else rng.choice(Labels.STYLES)
+    labels = "int" if uses_matrix else rng.choice(Labels.STYLES_NUM)
     num = rng.choice(["int", "frac", "float"])
     if num == "float" and (not all_dyadic(tree) or not float_exact(tree, fam == "spin")):
         num = "frac"
